@@ -527,6 +527,16 @@ def S4_E1_error_arm(ctx):
                 bad4.append((p, f'unexpected abort reason {v} in the error arm'))
         if not ab:
             rows.add('not-head')
+            # the only excuse for NOT reporting an unblocked error is that the attempt did not begin at the commit head
+            off_head = False
+            for x in p.events:
+                if x.kind == 'atom':
+                    n = norm_cmp(x)
+                    if n and n[0] == 'Ne' and ((has_call(n[1], 'SchedulerContext::committed_idx') and is_field(n[2], 'TxVersion.txid')) or
+                                               (has_call(n[2], 'SchedulerContext::committed_idx') and is_field(n[1], 'TxVersion.txid'))):
+                        off_head = True
+            if not off_head:
+                bad4.append((p, 'an unblocked error of an attempt that began at the commit head is parked instead of reported (it would fail again, forever)'))
     # transaction-vs-other classification: FallbackSequential only when the error is EVMError::Transaction
     for p in ps:
         for a in calls(p, 'Scheduler>::abort'):
